@@ -1,8 +1,14 @@
 #!/venv/bin/python
 """Copy confirmed seeds into /verif/seeded/<prop>-<k>/ with meta.json extended by what was run and what detected it."""
 import glob, json, os, shutil, sys
+# usage: import_seeds.py [--offset N] <jsonl...>   (--offset: seed k of a later batch is stored as <prop>-<k+N>, never over an earlier one)
+args = sys.argv[1:]
+offset = 0
+if args and args[0] == "--offset":
+    offset = int(args[1])
+    args = args[2:]
 res = {}
-for fn in sys.argv[1:]:
+for fn in args:
     for l in open(fn):
         try:
             d = json.loads(l)
@@ -13,9 +19,17 @@ for fn in sys.argv[1:]:
 for seed, d in sorted(res.items()):
     prop = d["property"]
     k = os.path.basename(seed)
+    if offset:
+        k = str(int(k) + offset)
     dst = f"/verif/seeded/{prop}-{k}"
+    if offset and os.path.exists(dst):
+        print("EXISTS, not overwritten", dst)
+        continue
     confirmed = d.get("demo_clean_passes") and d.get("demo_patched_fails") and d.get("patch_applies") and d.get("compiles")
     suite = d.get("suite", "")
+    if confirmed and suite and "failed" in suite:
+        print("SUITE NOT GREEN", seed, suite)
+        continue
     if not confirmed:
         print("NOT CONFIRMED", seed, {x: d.get(x) for x in ("demo_clean_passes", "demo_patched_fails", "patch_applies", "compiles")})
         continue
